@@ -25,7 +25,7 @@ FLOORS = {"quick": {"steps": 100000, "sleeps": 20000, "early_sleeps": 3000, "lat
           "thorough": {"steps": 2000000, "sleeps": 400000, "early_sleeps": 60000, "late_sleeps": 40000,
                        "never_ahead_checks": 2000000, "strict_errors_expected": 6000, "strict_boundary_exact_pass": 1000,
                        "strict_checks": 800000, "syncs": 20000, "nonstrict_late_steps": 60000, "tapes_compared": 40000}}
-KEYS = tuple(FLOORS["quick"].keys()) + ("continued_after_strict_error", "huge_int_clock_cases", "steps_interrupted_in_sleep", "second_jobs_after_idle", "runs_without_probes")
+KEYS = tuple(FLOORS["quick"].keys()) + ("continued_after_strict_error", "huge_int_clock_cases", "steps_interrupted_in_sleep", "second_jobs_after_idle", "runs_without_probes", "run_until_on_empty_schedule")
 # floors for the situations added with the later rounds of seeded changes (evidence that they were really exercised)
 FLOORS["quick"].update({'steps_interrupted_in_sleep': 15000})
 FLOORS["thorough"].update({'steps_interrupted_in_sleep': 75000})
@@ -104,7 +104,7 @@ def gen_case(rng, i):
         for sc in prog["scripts"]:
             ints(sc["ops"])
         prog["huge_int_clock"] = True
-    factor = rng.choice([0.25, 0.5, 1, 1, 2, 0.01])
+    factor = rng.choice([0.25, 0.5, 1, 1, 2, 0.01, 2.0 ** -13])        # (incl. a factor far below a millisecond)
     strict = rng.random() < 0.5
     kind = rng.choice(["exact", "early", "late", "mixed"])
     if kind == "exact":
@@ -131,7 +131,7 @@ def gen_case(rng, i):
             "construct_lag": rng.choice([0, 0, factor, 5 * factor]),
             "after_error": rng.choice(["stop", "retry", "retry", "sync"]),
             "bare": rng.random() < 0.3,
-            "second_job": None if rng.random() < 0.7 else {"idle": rng.choice([0, factor / 2, 3 * factor, 10 * factor]),
+            "second_job": None if rng.random() < 0.7 else {"how": rng.choice(["timeout", "run-until"]), "idle": rng.choice([0, factor / 2, 3 * factor, 10 * factor]),
                                                             "delay": rng.choice([0, 1, 2] if prog.get("huge_int_clock") else [0, 0.25, 1, 2])}}
 
 
@@ -187,6 +187,36 @@ def run_case(case, stats):
                 except BaseException as e:
                     bad("step-on-empty-schedule-did-not-raise", "step() on an empty schedule raised something else", repr(e)[:100])
                 clock.t += second["idle"]
+                if second.get("how") == "run-until":
+                    # the second job is a plain run(until=now + d) on the EMPTY schedule: its stop occurrence is paced and
+                    # (strict) judged like any other occurrence
+                    t_stop = env.now + second["delay"] + 1
+                    due = rs + (t_stop - t0) * factor
+                    got = False
+                    for _attempt in range(50):
+                        lag = clock.t - due
+                        expect_err = strict and lag > factor
+                        try:
+                            env.run(until=t_stop)
+                        except SleepInterrupted:
+                            stats["steps_interrupted_in_sleep"] += 1
+                            continue                # the pacing sleep was left by an exception: the caller calls run() again
+                        except RuntimeError as e:
+                            got = str(e).startswith("Simulation too slow for real time")
+                        break
+                    stats["run_until_on_empty_schedule"] += 1
+                    if got != expect_err and not ((not dyadic) and abs(lag - factor) < 1e-9):
+                        bad("no-too-slow-error-although-beyond-factor" if expect_err else "too-slow-error-although-within-factor",
+                            "run(until=t) on an empty schedule raised / did not raise 'Simulation too slow for real time' against the strict rule",
+                            {"lag": lag, "factor": factor, "strict": strict})
+                    elif not got:
+                        if env.now != t_stop:
+                            bad("run-until-returned-at-wrong-time", "run(until=t) returned with now != t", {"t": t_stop, "now": env.now})
+                        elif clock.t < due and not (not dyadic and due - clock.t < 1e-9):
+                            bad("processed-ahead-of-wall-clock", "run(until=t) on an empty schedule returned before the wall clock reached real_start + (t - initial_time)*factor",
+                                {"t": t_stop, "wall": clock.t, "needed": due, "factor": factor})
+                    second = None
+                    break
                 env.timeout(second["delay"], "second-job")
                 stats["second_jobs_after_idle"] += 1
                 second = None
